@@ -56,6 +56,7 @@ struct ConnState {
     pos: u64, // frames sent in this exchange so far
     fault: Option<(u64, String)>,
     delay_ms: u64,
+    split: bool, // the delayed reply arrives in two halves: one at once, one after the delay
     hs_stage: u64,
     unacked: bool, // a reply frame was handed to the client and not acknowledged yet
     // frame boundaries inside rbuf: (bytes still unread, exchange, position, a planned well-formed frame?)
@@ -465,16 +466,29 @@ fn send_next(term: &mut Term, c: &mut ConnState, cst: &Arc<Mutex<ConnState>>) {
     let kind = cmd_kind(&frame);
     let code = if frame.len() > 3 && frame[..2] == [0x06, 0x1e] { json!(frame[3]) } else { Value::Null };
     if delay > 0 {
-        // reply later in virtual time
+        // reply later in virtual time - whole, or its first half at once and the rest later (split)
         let cst2 = cst.clone();
         let (id, ex) = (c.id, c.ex);
         let start = term.start;
         term.log(json!({"e": "tx", "conn": id, "ex": ex, "pos": pos, "kind": kind, "code": code, "raw": frame, "after_ms": delay}));
+        let split = c.split && frame.len() >= 2;
+        let head = if split { frame.len() / 2 } else { 0 };
+        if split {
+            // the frame is one unit for the bookkeeping (delivered when its last byte is consumed); its first half is there already
+            c.rbuf.extend(frame[..head].iter().copied());
+            c.marks.push_back((frame.len(), ex, pos, true));
+            c.frames.push_back(frame.clone());
+            wake(c);
+        }
         tokio::spawn(async move {
             tokio::time::sleep(std::time::Duration::from_millis(delay)).await;
             let mut c = cst2.lock().unwrap_or_else(|e| e.into_inner());
             if !c.dropped {
-                push_frame(&mut c, &frame, ex, pos, true);
+                if split {
+                    c.rbuf.extend(frame[head..].iter().copied());
+                } else {
+                    push_frame(&mut c, &frame, ex, pos, true);
+                }
                 wake(&mut c);
             }
             let _ = start;
@@ -585,6 +599,7 @@ impl AsyncWrite for Conn {
             }
             c.fault = plan.get("fault").map(|f| (f["pos"].as_u64().unwrap_or(0), f["kind"].as_str().unwrap_or("silence").to_string()));
             c.delay_ms = plan.get("delay_ms").and_then(|d| d.as_u64()).unwrap_or(0);
+            c.split = plan.get("split").and_then(|d| d.as_bool()).unwrap_or(false);
             c.pending.push_back(ACK.to_vec());
             for f in frames {
                 c.pending.push_back(f);
